@@ -316,7 +316,7 @@ fn coq_sjson(j: &J, out: &mut String) -> bool {
 // views of one stream
 // ------------------------------------------------------------------------------------------------
 
-fn line_of(e: &Event) -> String {
+pub fn line_of(e: &Event) -> String {
     serde_json::to_string(e).unwrap_or_default()
 }
 fn ty_of(e: &Event) -> String {
@@ -324,7 +324,7 @@ fn ty_of(e: &Event) -> String {
 }
 
 /// complete lines of a file from `offset` on, read with a handle of its own
-fn lines_from(path: &Path, offset: u64) -> Result<(Vec<String>, u64), String> {
+pub fn lines_from(path: &Path, offset: u64) -> Result<(Vec<String>, u64), String> {
     let mut f = std::fs::File::open(path).map_err(|e| format!("open {}: {e}", path.display()))?;
     f.seek(SeekFrom::Start(offset)).map_err(|e| e.to_string())?;
     let mut buf = Vec::new();
@@ -338,7 +338,7 @@ fn file_len(path: &Path) -> u64 {
 }
 
 /// frames of one stream among raw log lines (the line text is kept: it IS what the writer wrote)
-fn stream_lines(lines: &[String], kind: StreamKind, id: &str) -> Result<Vec<(String, Event)>, String> {
+pub fn stream_lines(lines: &[String], kind: StreamKind, id: &str) -> Result<Vec<(String, Event)>, String> {
     let mut out = vec![];
     for l in lines {
         if !l.contains(id) {
@@ -512,7 +512,7 @@ impl Env {
 }
 
 /// one session on the engine with a subscriber attached before the run; returns (session id, live frames)
-async fn run_session(engine: &SessionEngine, input: String, cfg: Option<ripd::verif::OpenResponsesConfig>) -> Result<(String, Vec<Event>), String> {
+pub async fn run_session(engine: &SessionEngine, input: String, cfg: Option<ripd::verif::OpenResponsesConfig>) -> Result<(String, Vec<Event>), String> {
     let handle = engine.create_session();
     let sid = handle.session_id.clone();
     let mut rx = handle.subscribe();
